@@ -97,7 +97,7 @@ enum { T_CANCEL = 1, T_MODIFY, T_OTHER };                                       
 enum { Y_ERROR = 0, Y_GET, Y_SET, Y_RESULT, Y_OTHER };
 struct Expect { QString to, id, sid, seq; QByteArray payload; const QString *idNow; };   // idNow: a string the id must equal at send time (or null)
 static Expect g_exp;
-struct Sent { int n, kind, type, cond, etype, nchildren; bool isIq, toOk, idOk, nsOk, sidOk, seqOk, payloadOk; };
+struct Sent { int n, kind, type, cond, etype, nchildren; bool isIq, toOk, idOk, nsOk, sidOk, seqOk, payloadOk; int types[4]; };   // types: reply type per stanza (history harness)
 static Sent g_sent;
 bool QXmppClient::sendPacket(const QXmppNonza &p)
 {
@@ -111,6 +111,7 @@ bool QXmppClient::sendPacket(const QXmppNonza &p)
     g_sent.idOk = g_exp.idNow ? id == *g_exp.idNow : id == g_exp.id;
     const QString ty = a.attribute(L("type"));
     g_sent.type = ty == L("error") ? Y_ERROR : ty == L("get") ? Y_GET : ty == L("set") ? Y_SET : ty == L("result") ? Y_RESULT : Y_OTHER;
+    if (g_sent.n <= 4) g_sent.types[g_sent.n - 1] = g_sent.type;
     g_sent.nchildren = int(vp_c19_dom_nchildren(&a));
     g_sent.kind = K_NONE;
     if (g_sent.nchildren >= 1) {
@@ -462,4 +463,90 @@ extern "C" void h_lookup()
         if (hit) want = job[i];
     }
     vp_assert(got == want, "C19 a stream request is attributed to the first job with the same direction, peer JID and session id / request id, to none otherwise");
+}
+
+// ------------------------------------------------------------------------------------------------ (6) a whole two-block transfer on the receiver
+// From the state the REAL constructor leaves (counter 0, nothing received) after the user accepted the offer: open, two blocks
+// with arbitrary sequence numbers and contents (= any drop / duplicate / swap / alteration of a two-block stream), close.
+extern "C" void h_transfer2()
+{
+    internAttrs();
+    static MgrU mu; static InU ju;
+    QXmppTransferManager *m = &mu.v; QXmppTransferIncomingJob *job = &ju.v;
+    QXmppTransferManagerPrivate *md = attachMgrPrivate(m);
+    QXmppTransferJobPrivate *jd = attachJobPrivate(job);
+    const QString peer = vpSymString(C19_JIDLEN), sid = vpSymString(C19_SIDLEN), id = vpSymString(C19_IDLEN);
+    const qint64 size = qint64(vp_u8());                     // announced size 0 (= not announced) .. 255
+    const QByteArray hash = vpSymBytes(2), digest = vpSymBytes(2);
+    jd->jid = peer; jd->sid = sid; jd->method = QXmppTransferJob::InBandMethod; jd->state = QXmppTransferJob::StartState;
+    jd->fileInfo.setSize(size); jd->fileInfo.setHash(hash);
+    jd->iodevice = theDevice();
+    md->jobs.append(job);
+    vp_c19_dev_init(theDevice(), true, false);
+    vp_c19_set_digest(&digest);
+    g_exp.to = peer; g_exp.id = id;
+
+    QXmppIbbOpenIq open; open.setFrom(peer); open.setId(id); open.setSid(sid); open.setBlockSize(1);
+    m->ibbOpenIqReceived(open);
+    vp_assert(int(jd->state) == QXmppTransferJob::TransferState && g_sent.n == 1 && g_sent.types[0] == Y_RESULT, "C19 open from the peer for the accepted session starts the transfer");
+
+    unsigned seq[2]; QByteArray pay[2];
+    for (int k = 0; k < 2; k++) {
+        seq[k] = vp_u16(); vp_c19_sym_bytes_n(&pay[k], 1);
+        QXmppIbbDataIq d; d.setFrom(peer); d.setId(id); d.setSid(sid); d.setSequence(quint16(seq[k])); d.setPayload(pay[k]);
+        m->ibbDataIqReceived(d);
+    }
+    QXmppIbbCloseIq close; close.setFrom(peer); close.setId(id); close.setSid(sid);
+    m->ibbCloseIqReceived(close);
+
+    const bool acc0 = seq[0] == 0, acc1 = seq[1] == (acc0 ? 1u : 0u);
+    const unsigned count = (acc0 ? 1u : 0u) + (acc1 ? 1u : 0u);
+    vp_assert(g_sent.n == 4 && g_sent.types[1] == (acc0 ? Y_RESULT : Y_ERROR) && g_sent.types[2] == (acc1 ? Y_RESULT : Y_ERROR) && g_sent.types[3] == Y_RESULT,
+              "C19 blocks are acknowledged exactly when they arrive in sequence (counting from 0)");
+    vp_assert(vp_c19_dev_wlen() == count && jd->done == qint64(count), "C19 exactly the in-sequence blocks are written");
+    const unsigned char b0 = (unsigned char)pay[0].at(0), b1 = (unsigned char)pay[1].at(0);
+    vp_assert(count < 1 || vp_c19_dev_wbyte(0) == (acc0 ? b0 : b1), "C19 the first byte on the device is the first accepted block");
+    vp_assert(count < 2 || vp_c19_dev_wbyte(1) == b1, "C19 the second byte on the device is the second accepted block");
+    const bool hashed = hash.size() > 0;
+    vp_assert(vp_c19_hash_len(&jd->hash) == (hashed ? count : 0u) && (!hashed || count < 1 || vp_c19_hash_byte(&jd->hash, 0) == vp_c19_dev_wbyte(0)) && (!hashed || count < 2 || vp_c19_hash_byte(&jd->hash, 1) == vp_c19_dev_wbyte(1)),
+              "C19 the running hash covers exactly the bytes on the device");
+    const bool ok = (size == 0 || size == qint64(count)) && (!hashed || digest == hash);
+    vp_assert(int(jd->state) == QXmppTransferJob::FinishedState && int(jd->error) == (ok ? int(QXmppTransferJob::NoError) : int(QXmppTransferJob::FileCorruptError)),
+              "C19 after close: success exactly when size and hash of what was written match the announcement");
+    // the property, for an announced two-block file: success implies both blocks arrived once, in order, and are on the device
+    vp_assert(!(size == 2 && int(jd->error) == QXmppTransferJob::NoError) || (seq[0] == 0 && seq[1] == 1 && vp_c19_dev_wlen() == 2 && vp_c19_dev_wbyte(0) == b0 && vp_c19_dev_wbyte(1) == b1),
+              "C19 a two-block transfer reported successful delivered both blocks, once each, in order");
+}
+
+// ------------------------------------------------------------------------------------------------ (7) a whole two-block transfer on the sender
+// From the state the REAL constructor leaves (counter 0) once the peer accepted in-band transfer and the open request is
+// outstanding: the peer acknowledges open, block 0, block 1 (each acknowledgement carries the then outstanding request id);
+// the device yields two blocks and then end of data.
+extern "C" void h_send2()
+{
+    internAttrs();
+    static MgrU mu; static OutU ju;
+    QXmppTransferManager *m = &mu.v; QXmppTransferOutgoingJob *job = &ju.v;
+    QXmppTransferManagerPrivate *md = attachMgrPrivate(m);
+    QXmppTransferJobPrivate *jd = attachJobPrivate(job);
+    const QString peer = vpSymStringNonEmpty(C19_JIDLEN), sid = vpSymString(C19_SIDLEN), openId = vpSymString(C19_IDLEN);
+    jd->direction = QXmppTransferJob::OutgoingDirection;
+    jd->jid = peer; jd->sid = sid; jd->method = QXmppTransferJob::InBandMethod; jd->state = QXmppTransferJob::StartState;
+    jd->requestId = openId; jd->blockSize = 1;
+    jd->iodevice = theDevice();
+    md->jobs.append(job);
+    vp_c19_dev_init(theDevice(), true, false);
+    g_exp.to = peer; g_exp.sid = sid; g_exp.idNow = &jd->requestId;
+
+    QByteArray blk[3]; vp_c19_sym_bytes_n(&blk[0], 1); vp_c19_sym_bytes_n(&blk[1], 1); vp_c19_sym_bytes_n(&blk[2], 0);
+    for (int k = 0; k < 3; k++) {
+        vp_c19_dev_source(&blk[k]);
+        g_exp.seq = QString::number(k); g_exp.payload = blk[k];
+        QXmppIq ack; ack.setType(QXmppIq::Result); ack.setFrom(peer); ack.setId(jd->requestId);
+        m->_q_iqReceived(ack);
+        vp_assert(g_sent.n == k + 1 && g_sent.isIq && g_sent.type == Y_SET && g_sent.toOk && g_sent.idOk && g_sent.nsOk && g_sent.sidOk, "C19 every acknowledgement triggers exactly one further request of this session to the peer");
+        vp_assert(g_sent.kind == (k < 2 ? K_DATA : K_CLOSE) && (k == 2 || (g_sent.seqOk && g_sent.payloadOk)), "C19 the blocks go out in device order numbered 0, 1, ... and the stream is closed at end of data");
+        vp_assert(int(jd->state) == (k < 2 ? int(QXmppTransferJob::TransferState) : int(QXmppTransferJob::FinishedState)), "C19 the sender finishes exactly at end of data");
+    }
+    vp_assert(jd->done == 2 && int(jd->error) == QXmppTransferJob::NoError && vp_c19_nqueued() == 1 && vp_c19_dev_rcalls() == 3, "C19 the sender reports success after all blocks were acknowledged");
 }
